@@ -108,7 +108,7 @@ func TestVerifC01(t *testing.T) {
 		t.Logf("C01 %s depth %d: states=%d transitions=%d depthCompleted=%d", name, p.depth, res.States, res.Transitions, res.DepthCompleted)
 	}
 	// search from non-initial states (deep scripted pre-states), medium alphabet
-	for _, cn := range vx.Pick(r, []string{"ooo"}, []string{"ooo", "base", "oooneg", "ooo+snap", "ooo+xor2+st", "v2"}) {
+	for _, cn := range vx.Pick(r, []string{"ooo", "snap"}, []string{"ooo", "snap", "base", "oooneg", "ooo+snap", "ooo+xor2+st", "v2"}) {
 		if r.Expired() {
 			r.NotExhaustive("deadline before the non-initial-state search of " + cn)
 			break
